@@ -8,12 +8,33 @@ def _quiet(ck, fn):
     ck.not_decided[:], ck.trusted[:] = nd, tb
 
 
+def _admits(ck, rids):
+    return ck._only is None or bool(ck._only & set(rids))
+
+
 def include_ad(ck, facts, tier):
     """Exactness of the AD operator rules (C01 R01.x, C02 R02.x) and of variable alignment (C03): whatever carries sensitivities rests on them."""
     from rules import c01, c02, c03
     _quiet(ck, lambda: c01.run_order(ck, facts, "dual::dual::Dual", "R01", ["real", "dual"]))
     _quiet(ck, lambda: c01.run_order(ck, facts, "dual::dual::Dual2", "R02", ["real", "dual", "dual2"]))
     _quiet(ck, lambda: c03.run(ck, facts, tier))
+    include_sums(ck, facts, tier)
+
+
+def include_sums(ck, facts, tier):
+    """Inner products, matrix products and spline sums are `Iterator::sum()` over products: the sum is the left-to-right fold with `+` from a variable-free
+    zero (C19 R19.4/R19.5) — an accumulator that drops a Hessian block falsifies every property whose sensitivities pass through a sum."""
+    from rules import c19
+    if getattr(ck, "_sums_done", False) or not _admits(ck, {"R19.4", "R19.5"}):
+        return
+    ck._sums_done = True
+    prev = getattr(ck, "_surface_done", False)
+    ck._surface_done = True          # c19.run ends by including the number surface; not wanted here
+    try:
+        with ck.restrict({"R19.4", "R19.5"}):
+            _quiet(ck, lambda: c19.run(ck, facts, tier))
+    finally:
+        ck._surface_done = prev
 
 
 def include_alignment(ck, facts, tier):
@@ -40,8 +61,8 @@ def include_number_surface(ck, facts, tier):
     with `+` from zero (C19 R19.4), and from Python every operator goes through the `#[pymethods]` wrappers (R18.4). The AD and naming properties hold for a
     user only if those layers pass operands through unchanged, so C01, C02, C03 and C19 include these rules."""
     from rules import c18, c19, pywrap
-    if getattr(ck, "_surface_done", False):
-        return
+    if getattr(ck, "_surface_done", False) or not _admits(ck, {"R18.3", "R18.4", "R19.4", "R19.2"}):
+        return          # (inside a restriction that mutes these rules nothing would be recorded: leave the flag for the caller that does want them)
     ck._surface_done = True
     with ck.restrict({"R18.3"}):
         _quiet(ck, lambda: c18.run(ck, facts, tier))
